@@ -27,7 +27,9 @@ PROPS = {
         outside=COMMON_OUTSIDE + ["peek_bits(n) with n > W on the buffered reader (see C05)", "unary runs longer than the stated window"],
     ),
     "C03": dict(
-        prefixes=["c03_", "c01_write_bits", "c01_write_unary", "c02_read_bits", "c02_read_unary", "c02_ub_read_bits", "c02_ub_read_unary"],
+        # quick: round trip at offset 0 (c03_r_*) + position independence of the model stream (c03_ms_*) + the real
+        # writer/reader refinement steps; thorough adds the definition harnesses, in-place round trips and end-to-end runs
+        prefixes=["c03_r_", "c03_ms_", "c03_rt_", "c03_e2e_", "c03_w64_", "c01_write_bits", "c01_write_unary", "c02_read_bits", "c02_read_unary", "c02_ub_read_bits", "c02_ub_read_unary"],
         level_text="Bounded model checking of the real generic codec code (src/codes/*.rs, every write_*/read_* incl. table variants) executed on a model bit stream implementing the library's own BitRead/BitWrite traits: symbolic value over the full 64-bit domain, symbolic parameters, symbolic bit offset (0..=64) and arbitrary following bits; asserts value round trip, exact consumption and intact neighbours. Combination with every real writer/reader word size follows compositionally from C01/C02 (the real streams refine the same canonical model); end-to-end real-writer/real-reader runs are in the thorough tier.",
         assumptions=[
             "value domain: v <= 2^64-2 (documented maximum) for gamma/delta/omega/zeta/pi/exp-Golomb, any u64 for VByte/Rice; zeta k in 1..=63; pi/Rice/exp-Golomb k in 0..=63; minimal binary 1<=u<2^64, v<u",
@@ -102,7 +104,7 @@ PROPS = {
         outside=COMMON_OUTSIDE + ["zeta_k values with (h+1)k > 64 (the property does not claim the published form there)", "Golomb moduli above the stated bound"],
     ),
     "C05": dict(
-        prefixes=["c05_", "c03_w_gamma", "c03_w_delta", "c03_w_zeta3", "c03_r_gamma", "c03_r_delta", "c03_r_zeta3"],
+        prefixes=["c05_", "c03_w_gamma_tab", "c03_w_delta_tab", "c03_w_zeta3_tab", "c03_w_gamma_be", "c03_w_delta_be", "c03_w_zeta3_be", "c03_w_gamma_le", "c03_w_delta_le", "c03_w_zeta3_le"],
         level_text="Bounded model checking of table-driven vs bit-by-bit coding. Decoding: from an arbitrary representation-valid state of the REAL readers (BufBitReader over u16/u32/u64 words, BitReader) over a symbolic stream - hence every look-ahead pattern of every table at every buffer fill - the table variant and the plain variant return the same value and leave the same position and a valid state (gamma; delta in all table combinations; zeta3). Encoding/length tables: both variants are compared with the same definition for every value (C03/C04 harnesses *_tab_*), and the parameterless defaults of the real readers/writers agree with the plain variants.",
         assumptions=[
             "the plain decoder's precondition: the stream holds a codeword (first one bit within 20 / 6 / 11 bits for gamma / delta / zeta3, so that every field read is <= 64 bits)",
@@ -112,7 +114,7 @@ PROPS = {
         outside=COMMON_OUTSIDE + ["the text of the diagnostic (checked natively)"],
     ),
     "C06": dict(
-        prefixes=["c03_w", "c03_r", "c03_ms_rebase", "c10_const", "c10_func"],
+        prefixes=["c03_w", "c03_r", "c06_"],
         level_text="Bounded model checking: in the C03/C04 codec harnesses every length function of the library for the code (with and without length tables) equals the value returned by the write, equals the growth of the stream, equals the length of the published definition (write harnesses, symbolic value/parameters) and equals the number of bits the read consumes (round-trip harnesses); the length-dispatch objects (ConstCode / Codes / FuncCodeLen) equal the code's own length function and the bits written (C10 harnesses, thorough tier).",
         assumptions=["domains and bounds as in C03/C04; len_rice/len_golomb for astronomically long codewords (usize overflow) are outside"],
         outside=COMMON_OUTSIDE + ["codewords longer than 128 bits"],
@@ -172,7 +174,7 @@ PROPS = {
     "C19": dict(
         prefixes=["c19_", "c01_write_bits", "c01_write_unary", "c03_w_", "c08_copy", "c12_write"],
         builds={
-            "quick": [("checks", ["checks"], None, r"^c19_|^c01_write_bits_(be_u8|le_u64|be_u128)|^c03_w_(gamma|gamma_tab|delta_tab|omega|pi|rice|expgolomb|minbin|vbytebe)_be|^c03_w_(zeta3_tab|omega|pi|golomb)_le|^c08_copy_to_(be_u32|le_u64)|^c08_copy_from_(le_u16|be_u128)|^c12_write_(be_u16|le_u128)")],
+            "quick": [("checks", ["checks"], None, r"^c19_|^c01_write_bits_(be_u8|le_u64|be_u128)|^c01_write_unary_le_u16|^c03_w_(gamma|gamma_tab|delta_tab|omega|pi|rice|expgolomb|minbin|vbytebe)_be|^c03_w_(zeta3_tab|omega|golomb)_le|^c08_copy_to_(be_u32|le_u64)|^c08_copy_from_(le_u16|be_u64)|^c12_write_(be_u16|le_u128)")],
             "thorough": [("checks", ["checks"]),
                          ("no_copy_impls", ["no_copy_impls"], ["c08_", "c01_write_bits"], r"^c08_|^c01_write_bits_(be_u64|le_u8)"),
                          ("checks+no_copy_impls", ["checks", "no_copy_impls"], ["c08_", "c19_"])],
